@@ -204,7 +204,20 @@ static void run_qsim(uint64_t seed, uint32_t len, uint64_t tid)
     cmb_event_queue_terminate(); cmb_random_terminate();
     QW = NULL;
 }
-static _Atomic int q_mode; static int big_frames;
+static _Atomic int q_mode; static int big_frames; static int err_mode; static unsigned char err_trial[MAXTR];
+
+/* ---- C17 inside concurrent trials: every trial fills a weighted summary of its own from its seed and reads variance, standard deviation,
+ * skewness and kurtosis over and over; the values were computed by the same code in the calling thread before the experiment */
+static double w_ref[MAXTR][4]; static _Atomic int w_bad; static char w_msg[200]; static _Atomic uint64_t w_reads;
+static void w_fill(struct cmb_wtdsummary *ws, uint64_t seed) { vr_rng g = { seed | 1 }; int n = 20 + (int)(seed % 60); for (int k = 0; k < n; k++) { double x = vr_unit(&g) * 10.0 - (double)(seed % 7); double w = 0.1 + vr_unit(&g) * 3.0; cmb_wtdsummary_add(ws, x, w); } }
+static void w_read(const struct cmb_wtdsummary *ws, double out[4]) { out[0] = cmb_wtdsummary_variance(ws); out[1] = cmb_wtdsummary_stddev(ws); out[2] = cmb_wtdsummary_skewness(ws); out[3] = cmb_wtdsummary_kurtosis(ws); }
+static void w_trial(uint64_t i)
+{
+    struct cmb_wtdsummary ws; ws.ds.cookie = 0; cmb_wtdsummary_initialize(&ws); w_fill(&ws, tseed[i]);
+    for (int rep = 0; rep < 300 && !w_bad; rep++) { double v[4]; w_read(&ws, v); atomic_fetch_add(&w_reads, 1);
+        if (memcmp(v, w_ref[i], sizeof v) != 0 && !atomic_exchange(&w_bad, 1)) snprintf(w_msg, sizeof w_msg, "trial %" PRIu64 " read variance %.12g stddev %.12g skewness %.12g kurtosis %.12g of its own weighted summary; alone they are %.12g %.12g %.12g %.12g", i, v[0], v[1], v[2], v[3], w_ref[i][0], w_ref[i][1], w_ref[i][2], w_ref[i][3]); }
+    FILE *nul = fopen("/dev/null", "w"); if (nul) { cmb_wtdsummary_print(&ws, nul, true); fclose(nul); }
+}
 
 /* ---- pollution: different per worker thread and per call, hence per schedule */
 static _Thread_local uint64_t tl_calls; static _Atomic uint64_t n_unpolluted_caches;
@@ -229,6 +242,19 @@ static void pollute(void)
     if (vr_chance(&pr, 1, 3)) { struct res dummy; run_sim(vr_next(&pr), 1 + (uint32_t)vr_below(&pr, 4), &dummy); }
 }
 
+/* ---- the calling thread's own pool objects across an experiment: a pilot simulation leaves 300 objects in an object queue (tags from the
+ * thread-local static pool), the experiment runs, a second simulation takes them out again in order */
+static struct cmb_objectqueue *pilot_q; static int pilot_bad;
+static void *pilot_put(struct cmb_process *me, void *ctx) { (void)me; (void)ctx; for (uintptr_t k = 1; k <= 300; k++) if (cmb_objectqueue_put(pilot_q, (void *)(k * 8)) != CMB_PROCESS_SUCCESS) pilot_bad = 1; return NULL; }
+static void *pilot_get(struct cmb_process *me, void *ctx) { (void)me; (void)ctx; for (uintptr_t k = 1; k <= 300; k++) { void *o = NULL; if (cmb_objectqueue_get(pilot_q, &o) != CMB_PROCESS_SUCCESS || o != (void *)(k * 8)) { pilot_bad = 2; break; } } return NULL; }
+static void pilot_run(cmb_process_func *f)
+{
+    cmb_event_queue_initialize(0.0);
+    struct cmb_process *p = cmb_process_create(); cmb_process_initialize(p, "pilot", f, NULL, 0); cmb_process_start(p);
+    while (cmb_event_execute_next()) { }
+    cmb_process_terminate(p); cmb_process_destroy(p); cmb_event_queue_terminate();
+}
+
 static void trial_func(void *vp)
 {
     unsigned char *p = vp;
@@ -237,6 +263,12 @@ static void trial_func(void *vp)
     __atomic_fetch_add(&execcnt[i], 1, __ATOMIC_SEQ_CST);
     { uint64_t tag = i + 1; memcpy(p, &tag, stride < 8 ? stride : 8); }     /* the element itself is tagged by its own trial */
     if (!in_seq) who_ran[i] = pthread_self();
+    if (q_mode == 2) { w_trial(i); return; }
+    if (err_mode && err_trial[i]) {
+        /* a trial that gives up: cmb_logger_error ends "the current replication thread only"; the other trials are the other workers' */
+        if (!in_seq) { static FILE *nul; if (!nul) nul = fopen("/dev/null", "w"); if (nul) cmb_logger_error(nul, "trial %d gives up", (int)i); }
+        return;
+    }
     if (q_mode) { run_qsim(tseed[i], tlen[i], i); return; }
     pollute();
     if (big_frames && (tseed[i] & 3) == 0) {
@@ -261,6 +293,8 @@ void vr_case(uint64_t seed, uint64_t idx, int profile)
     if (profile == 1 && ntrials > 64) ntrials = 33;                 /* TSan build: keep it small */
     stride = sizes[vr_below(&r, 7)];
     big_frames = vr_chance(&r, 1, 4);
+    err_mode = (profile == 0 && idx % 8 == 6 && ntrials >= 17);
+    if (err_mode) { int ne = 0; for (uint64_t i = 0; i < ntrials; i++) { err_trial[i] = (ne < 5 && i >= 2 && vr_chance(&r, 1, 9)); ne += err_trial[i]; } if (ne) VR_CNT("experiments_with_trials_that_end_their_worker"); VR_ADD("trials_ending_their_worker", ne); }
     bool pinned = false; cpu_set_t old_mask;
     if (profile == 0 && idx % 8 == 5) {
         /* the whole program confined to one processor (taskset -c 0, a one-core container): every trial still runs, on however many workers */
@@ -285,9 +319,26 @@ void vr_case(uint64_t seed, uint64_t idx, int profile)
         VR_ADD("queue_trials", 2 * ntrials); VR_ADD("objects_delivered_in_concurrent_trials", q_delivered); VR_CNT("queue_experiments");
         vr_mark_nontrivial(); free(arr); return;
     }
+    if (profile == 3) {
+        q_mode = 2; if (ntrials > 200) ntrials = 200;
+        for (uint64_t i = 0; i < ntrials; i++) { struct cmb_wtdsummary ws; ws.ds.cookie = 0; cmb_wtdsummary_initialize(&ws); w_fill(&ws, tseed[i]); w_read(&ws, w_ref[i]); }
+        cimba_run_experiment(arr, ntrials, stride, trial_func);
+        if (w_bad) vr_violation("C17/concurrent-trials", "%s", w_msg);
+        VR_ADD("weighted_summary_trials", ntrials); VR_ADD("weighted_statistics_read_in_concurrent_trials", w_reads); VR_CNT("weighted_summary_experiments");
+        vr_mark_nontrivial(); free(arr); return;
+    }
     bool seq_first = vr_chance(&r, 1, 2);
     if (seq_first) { in_seq = 1; for (uint64_t i = 0; i < ntrials; i++) trial_func(arr + i * stride); in_seq = 0; for (uint64_t i = 0; i < ntrials; i++) { memset(arr + i * stride, 0, 8 < stride ? 8 : stride); execcnt[i] = 0; } }
+    const bool pilot = profile == 0 && idx % 8 == 1;
+    if (pilot) { pilot_bad = 0; pilot_q = cmb_objectqueue_create(); cmb_objectqueue_initialize(pilot_q, "pilot", CMB_UNLIMITED); pilot_run(pilot_put); }
     cimba_run_experiment(arr, ntrials, stride, trial_func);
+    if (pilot) {
+        if (!pilot_bad && cmb_objectqueue_length(pilot_q) != 300) pilot_bad = 3;
+        if (!pilot_bad) pilot_run(pilot_get);
+        if (pilot_bad) vr_violation("C20/objects-held-across-an-experiment", "300 objects left in an object queue by the calling thread before cimba_run_experiment: afterwards %s", pilot_bad == 1 ? "(the puts already failed)" : pilot_bad == 3 ? "the queue reports another length" : "they do not come out as they went in");
+        if (!pilot_bad) cmb_objectqueue_destroy(pilot_q);
+        VR_CNT("experiments_with_caller_objects_held_across");
+    }
     /* returned: every trial must have been executed exactly once, with its own element */
     if (bad_pointer) vr_violation("C19/foreign-pointer", "trial function was called %d time(s) with a pointer that is not an element of the trial array", bad_pointer);
     for (uint64_t i = 0; i < ntrials && vr_nviol == 0; i++) {
